@@ -82,7 +82,7 @@ static void build_letters(int alpha, std::vector<Letter> &L)
 	std::vector<uint64_t> T; T.push_back(ID_GO); if (th) T.push_back(ID_STOP); T.push_back(ID_XX);
 	// every hash letter runs ALL fragmentations of header + text + tail into <= 3 segments (inner loop, see apply_disp)
 	for (uint64_t id : T) for (int sh = 0; sh < 2; ++sh) for (int a = 0; a < NANS; ++a) {
-		std::string txt = id == ID_GO ? "go" : (id == ID_STOP ? "stop" : "<x|xx|abc|restart>");
+		std::string txt = id == ID_GO ? "go" : (id == ID_STOP ? "stop" : (a == A0 ? "<x|xx|abc|restart>" : "xx"));
 		L.push_back(Letter{HASH, id, a, sh, "dispatch_hash(" + (sh ? "sep=' ' \"" + txt + " now\"" : "\"" + txt + "\\0\"") + ", all fragmentations)" + ansname[a], "dispatch_hash"});
 	}
 	L.push_back(Letter{HASH_BAD, 0, 0, 0, "dispatch_hash(no message)", "dispatch_hash"});
@@ -521,9 +521,10 @@ bool Sys::apply_disp(const Letter &l)
 		bool all = final_op();
 		bool delivered = false, crossed = false;
 		uint64_t nfrag = 0;
-		size_t ntxt = l.id == ID_XX ? sizeof unknown_txt / sizeof *unknown_txt : 1;
+		// unknown names: all lengths with the plain answer, only "xx" with the other answers
+		size_t ntxt = l.id == ID_XX && l.ans == A0 ? sizeof unknown_txt / sizeof *unknown_txt : 1;
 		for (size_t ti = 0; ti < ntxt; ++ti) {
-			const char *txt = l.id == ID_GO ? "go" : (l.id == ID_STOP ? "stop" : unknown_txt[ti]);
+			const char *txt = l.id == ID_GO ? "go" : (l.id == ID_STOP ? "stop" : unknown_txt[ntxt > 1 ? ti : 1]);
 			size_t n = strlen(txt);
 			uint64_t id = djb2x(txt);
 			setcls(target_class(id));
